@@ -59,6 +59,15 @@ DOC = [
                             ("setv", "res2", ("lfor", "lfor", [("for", "y", 1)], ("ref", "r2", "x"))),
                             ("ref", "r3", "y")]),
       ("call", ("sym", "main"), []), ("ref", "r4", "x")]),
+    ("witness:closure inside a comprehension captures its variable, the name is free in the function afterwards "
+     "(correct Python; CPython 3.12.1 leaks the variable, judged under the independent interpreter)",
+     [("setv", "x", ("lit", 1)), ("setv", "z", ("lit", 3)),
+      ("defn", "main", [],
+       [("defn", "f2", [], [("setv", "res1", ("lfor", "lfor", [("for", "z", ("rng", ("ref", "r1", "x")))],
+                                              ("call", ("fn", [], [("ref", "r2", "z")]), []))),
+                            ("ref", "r3", "z")]),
+        ("call", ("sym", "f2"), []), ("setx", "z", ("lit", 4))]),
+      ("call", ("sym", "main"), [])]),
     ("witness:closure inside a comprehension whose variable shadows a let binding",
      [("let", [("x", ("lit", 100))],
        [("setv", "res1", ("lfor", "lfor", [("for", "x", 3)], ("call", ("fn", [], [("ref", "r1", "x")]), []))),
